@@ -69,18 +69,21 @@ def largest(chunks):
     return out
 
 
-def inst_plan(mo, mn, deg, smax, itemsize=1, thr_max=4, lim_max=16, empty_axes=()):
-    """empty_axes: axes of length zero (one zero-width chunk before and after; the array is empty)"""
+def inst_plan(mo, mn, deg, smax, itemsize=1, thr_max=4, lim_max=16, empty_axes=(), lo=1):
+    """empty_axes: axes of length zero (one zero-width chunk before and after; the array is empty); lo=0: zero-width chunks
+    may sit anywhere among the others"""
     nd = len(mo)
 
     def body(E):
         w, st = W(E)
-        old = tuple((0,) if a in empty_axes else sym_chunks(E, f"o{a}_", m) for a, m in enumerate(mo))
-        new = tuple((0,) if a in empty_axes else sym_chunks(E, f"n{a}_", m) for a, m in enumerate(mn))
+        old = tuple((0,) if a in empty_axes else sym_chunks(E, f"o{a}_", m, lo) for a, m in enumerate(mo))
+        new = tuple((0,) if a in empty_axes else sym_chunks(E, f"n{a}_", m, lo) for a, m in enumerate(mn))
         for a in range(nd):
             for c in old[a] + new[a]:
                 E.assume(c <= smax)
             E.assume(sum(old[a]) == sum(new[a]))
+            if lo == 0:
+                E.assume(sum(old[a]) >= 1)
         lim = E.int("limit", 1, lim_max)
         thr = E.int("threshold", 1, thr_max)
         st["cfg"].d = {"array.rechunk.threshold": thr, "array.chunk-size": lim, "array.rechunk.degree-limit": deg}
@@ -96,7 +99,7 @@ def inst_plan(mo, mn, deg, smax, itemsize=1, thr_max=4, lim_max=16, empty_axes=(
         for k, s in enumerate(steps):
             if len(s) != nd:
                 return False
-            E.ensure("same-shape-positive", AND(*[AND(sum(s[a]) == sum(old[a]), *[c >= (0 if a in empty_axes else 1) for c in s[a]])
+            E.ensure("same-shape-positive", AND(*[AND(sum(s[a]) == sum(old[a]), *[c >= (0 if a in empty_axes else lo) for c in s[a]])
                                                   for a in range(nd)]))
             by_bd = any(s is t for t in inserted)
             E.ensure("block-size-budget", largest(s) <= budget, site="_bound_degree" if by_bd else "size-planner")
@@ -106,7 +109,7 @@ def inst_plan(mo, mn, deg, smax, itemsize=1, thr_max=4, lim_max=16, empty_axes=(
             res = w.fn(R, "old_to_new")(prev, s)
             for a in range(nd):
                 if a not in empty_axes:
-                    crosswalk_ok(E, prev[a], s[a], res[a], label="crosswalk")
+                    crosswalk_ok(E, prev[a], s[a], res[a], label="crosswalk", lo=lo)
             prev = s
 
     def api(values):
@@ -129,6 +132,8 @@ def inst_plan(mo, mn, deg, smax, itemsize=1, thr_max=4, lim_max=16, empty_axes=(
         cost *= m + 1
     if empty_axes:
         nm += f",empty axes {tuple(empty_axes)}"
+    if lo == 0:
+        nm += ",zero-width chunks allowed"
     return Instance(f"plan_rechunk[{nm},degree={deg},sizes<={smax},itemsize={itemsize}]", body,
                     dict(old_blocks=mo, new_blocks=mn, degree_limit=deg, max_size=smax, itemsize=itemsize),
                     unit="plan_rechunk", api_replay=api, cost=cost * (2 if deg < 100 else 1), wall_s=900, timeout_ms=30000,
@@ -147,6 +152,8 @@ def instances(tier):
         out.append(inst_plan((3, 1), (1, 3), 2, 3))
         out.append(inst_plan((2, 1), (1, 2), 100, 3, itemsize=3, lim_max=24))
         out.append(inst_plan((1, 1, 2), (1, 2, 1), 100, 3, empty_axes=(0,)))  # an empty array still gets a plan
+        out.append(inst_plan((4,), (2,), 2, 2, lo=0))
+        out.append(inst_plan((1, 4), (2, 4), 2, 2, lo=0, thr_max=1, lim_max=1))
         out.append(inst_plan((5,), (3,), 2, 3))  # a 1-d merge deep enough for the degree pass to insert steps
         for mo, mn in ((1, 2), (2, 1), (2, 2), (2, 3), (3, 2), (3, 3)):
             out.append(inst_crosswalk(mo, mn))
